@@ -176,12 +176,20 @@ def check_index_sites(body, D2):
         n += 1
         D2.sites += 1
         good = [v for v in verdicts if v[0]]
+        if not good and t.k == 'call' and len(t.args) > 1:
+            # second idiom: the guard is on a precomputed `avail = len - index`
+            E0 = builders[0]
+            rng = E0.operand(t.args[1])
+            if isinstance(rng, tuple) and rng[0] == 'agg' and rng[1].endswith('Range::Range') and len(rng[2]) == 2:
+                why2 = avail_discharge(cfg, body, blk, rng[2][0], rng[2][1])
+                if why2:
+                    good = [(why2, '', show(rng))]
         if good:
             D2.ok(sample={'site': body.loc(t.sp), 'access': good[0][2], 'guard': good[0][0]})
         else:
             ok, why, shown = verdicts[0]
             D2.violation(('unguarded-payload-access', body.path, shown), 'payload access [%s] at %s can read outside the payload: %s' % (shown, body.loc(t.sp), why), where=body.loc(t.sp))
-    D2.floor('payload index sites in ' + body.path, n, 8)
+    D2.floor('payload index sites in ' + body.path, n, 5)
 
 
 def decoder_table(body):
@@ -424,3 +432,137 @@ def check_length_prefix(F, D4):
                     D4.violation(('length-may-wrap', b.path, kind), 'the encoder computes %s at %s but the dominating guards bound it only by %s: a value above 65535 wraps in the 16-bit length field and the decoder reads different arguments' %
                                  (what, where, 'nothing' if ub == float('inf') else ub), where=where)
     D4.floor('16-bit length computations in the encoder', n, 1)
+
+
+# ---------------------------------------------------------------------------------------------
+# D2 (second discharge): guards on a precomputed "bytes available" value
+
+def _lin_const(e):
+    """(constant part, text of the rest or None) of a sum of constants and at most one other term"""
+    if isinstance(e, tuple) and e[0] == 'cast':
+        return _lin_const(e[1])
+    v = fold(e)
+    if v is not None:
+        return (v, None)
+    if isinstance(e, tuple) and e[0] == 'bin' and e[1] == 'Add':
+        a, b = _lin_const(e[2]), _lin_const(e[3])
+        if a is None or b is None or (a[1] is not None and b[1] is not None):
+            return None
+        return (a[0] + b[0], a[1] if a[1] is not None else b[1])
+    return (0, show(e))
+
+
+def avail_discharge(cfg, body, blk, lo, hi):
+    """`let avail = payload.len().saturating_sub(self.index)` computed once, later reads at self.index .. self.index + N after
+    the cursor advanced by K constant bytes since then: covered when a dominating guard `avail >= G` has G >= K + N on
+    every path (path exploration summing the constant advances of the cursor since `avail` was computed; any
+    non-constant advance makes K unknown).  Returns a reason text or None."""
+    from paths import Explorer
+    E2 = ExprBuilder(cfg, fold_named=False)
+    EF = ExprBuilder(cfg, fold_named=True)
+    if show(E2.operand(lo) if hasattr(lo, 'd') else lo) != '(*self).index' and show(lo) != '(*self).index':
+        return None
+    # the read length N = hi - lo
+    hl = _lin_const_idx(hi)
+    if hl is None:
+        return None
+    n_const, n_other = hl
+    # candidate `avail` locals
+    cands = {}
+    for l, ds in cfg.defs.items():
+        if len(ds) != 1 or body.name_of(l) is None:
+            continue
+        (bi, si, d) = ds[0]
+        if si == 'call':
+            txt = show(('call', d.callee.path, tuple(EF.operand(a) for a in d.args)))
+        else:
+            txt = show(EF.rvalue(d.rv))
+        if re.match(r'(num::saturating_sub|usize::saturating_sub|Sub)\((Vec::len|slice::len|PtrMetadata)\(.*\), \(\*self\)\.index\)$', txt) or \
+                re.search(r'saturating_sub\((Vec::len|slice::len)\(.*\), \(\*self\)\.index\)$', txt):
+            cands[l] = (bi, si)
+    if not cands:
+        return None
+    for A, (BA, asi) in cands.items():
+        if not cfg.dominates(BA, blk.i):
+            continue
+        aname = body.name_of(A)
+
+        def block_effect(b2, facts, BA=BA, asi=asi):
+            k = None
+            unk = ('unk',) in facts
+            for f in facts:
+                if f[0] == 'k':
+                    k = f[1]
+            stmts = list(enumerate(b2.stmts))
+            for i, s in stmts:
+                if b2.i == BA and asi != 'call' and i == asi:
+                    k, unk = 0, False
+                if s.k == 'assign' and show(E2.target(s.place)) == '(*self).index':
+                    e = E2.rvalue(s.rv)
+                    c = None
+                    if isinstance(e, tuple) and e[0] == 'bin' and e[1] == 'Add' and show(e[2]) == '(*self).index':
+                        c = fold(e[3])
+                    elif isinstance(e, tuple) and e[0] in ('proj', 'place'):
+                        # x = move (_t.0) of an AddWithOverflow temp
+                        ef = EF.rvalue(s.rv)
+                        if isinstance(ef, tuple) and ef[0] == 'bin' and ef[1] == 'Add' and show(ef[2]) == '(*self).index':
+                            c = fold(ef[3])
+                    if c is None:
+                        unk = True
+                    elif k is not None:
+                        k = min(k + c, 1 << 20)
+            if b2.i == BA and asi == 'call':
+                k, unk = 0, False
+            out = [f for f in facts if f[0] not in ('k', 'unk')]
+            if k is not None:
+                out.append(('k', k))
+            if unk:
+                out.append(('unk',))
+            return frozenset(out)
+        ex = Explorer(cfg, block_effect=block_effect, var_roots=set())
+        ex.run()
+        sts = ex.states.get(blk.i, ())
+        if not sts:
+            continue
+        ks = set()
+        bad = False
+        for st in sts:
+            if ('unk',) in st[1]:
+                bad = True
+            kk = [f[1] for f in st[1] if f[0] == 'k']
+            if not kk:
+                bad = True
+            else:
+                ks.add(kk[0])
+        if bad or not ks:
+            continue
+        K = max(ks)
+        for (c, truth, D) in guards.known(cfg, E2, blk.i):
+            if not (isinstance(c, tuple) and c[0] == 'bin' and truth is True):
+                continue
+            op, x, y = c[1], c[2], c[3]
+            if op in ('Le', 'Lt'):
+                op, x, y = {'Le': 'Ge', 'Lt': 'Gt'}[op], y, x
+            if op not in ('Ge', 'Gt') or x != ('place', aname):
+                continue
+            g = _lin_const(y)
+            if g is None:
+                continue
+            g_const, g_other = g
+            if op == 'Gt':
+                g_const += 1
+            if g_other == n_other and g_const >= K + n_const:
+                return '`%s >= %s` with %s = len - index when computed, cursor advanced by %d since, read of %s byte(s)' % (
+                    aname, show(y)[:30], aname, K, (str(n_const) if n_other is None else ('%d + %s' % (n_const, n_other))))
+    return None
+
+
+def _lin_const_idx(hi):
+    """N for an upper bound written as (*self).index + N"""
+    if not (isinstance(hi, tuple) and hi[0] == 'bin' and hi[1] == 'Add'):
+        return None
+    if show(hi[2]) == '(*self).index':
+        return _lin_const(hi[3])
+    if show(hi[3]) == '(*self).index':
+        return _lin_const(hi[2])
+    return None
